@@ -22,7 +22,10 @@ def oracle(samples, o):
         flat = pipeline.render(reg, dict(oo, structure="flat"))
     except Exception as e:  # noqa
         return f"flat rendering raises {type(e).__name__}: {e}", tree
-    fc, _ = modast.class_tree(flat)
+    try:
+        fc, _ = modast.class_tree(flat)
+    except SyntaxError as e:
+        return f"flat layout is not valid Python: {e}", tree
     if any(c["nested"] for c in fc):
         return "flat layout contains nested classes", tree
     if len(fc) != n_models:
@@ -40,7 +43,10 @@ def oracle(samples, o):
         nested = pipeline.render(reg, dict(oo, structure="nested"))
     except Exception as e:  # noqa
         return f"nested rendering raises {type(e).__name__}: {e}", tree
-    nc, _ = modast.class_tree(nested)
+    try:
+        nc, _ = modast.class_tree(nested)
+    except SyntaxError as e:
+        return f"nested layout is not valid Python although the flat one is: {e}", tree
     nflat = modast.flatten(nc)
     if len(nflat) != n_models:
         return f"nested layout emits {len(nflat)} classes for {n_models} models", tree
@@ -72,7 +78,11 @@ def run(chk, build):
     lterms, lmeta, eterms, emeta = [], [], [], []
     ntree = 0
     for i in range(n):
-        g = gen.Gen(g0.r.randrange(10 ** 9))
+        keys = None
+        if i % 4 == 0:
+            # keys with line-separator-like characters, quotes and non-ASCII letters: the nested layout re-indents class text
+            keys = ["a", "b", "c", "na\u2028me", "li\x85ne", "q\"uote", "t\tab", "été", "x\u2029y", "id"]
+        g = gen.Gen(g0.r.randrange(10 ** 9), keys=keys)
         s = g.samples(depth=4 if i % 2 else 3)
         o = {"fw": g0.r.choice(pipeline.FRAMEWORKS), "cmp": g0.r.choice([None, None, [("exact",)], [("percent", 0.5)], [("number", 2)], [("number", 1)]]),
              "rn": RN3}
